@@ -394,7 +394,7 @@ def mutations(node, rng: random.Random) -> list[tuple[str, Callable[[], Any]]]:
         out.append(("bindings", lambda: rep(node, bindings=constantdict({
             k: (_fresh_like(v, "c") if k == k0 else v) for k, v in node.bindings.items()}))))
     elif isinstance(node, FunctionDefinition):
-        out.append(("parameters", lambda: rep(node, parameters=node.parameters | {"extra_m"})))
+        pass        # tags (above); changing `parameters` would invalidate the enclosing Call
     elif isinstance(node, DistributedRecv):
         out.append(("src_rank", lambda: rep(node, src_rank=node.src_rank + 1)))
         out.append(("comm_tag", lambda: rep(node, comm_tag=node.comm_tag + 1000)))
